@@ -159,6 +159,9 @@ def sc_max(a, b):
     a, b = Sc.of(a), Sc.of(b)
     if a.is_concrete and b.is_concrete:
         return a if a.re >= b.re else b
+    if isinstance(a.re, float) or isinstance(b.re, float):
+        x, y = (a, b) if isinstance(a.re, float) else (b, a)
+        return x if x.re > 0 else y
     return Sc(z3.If(zterm(a.re) >= zterm(b.re), zterm(a.re), zterm(b.re)))
 
 
@@ -166,6 +169,9 @@ def sc_min(a, b):
     a, b = Sc.of(a), Sc.of(b)
     if a.is_concrete and b.is_concrete:
         return a if a.re <= b.re else b
+    if isinstance(a.re, float) or isinstance(b.re, float):
+        x, y = (a, b) if isinstance(a.re, float) else (b, a)
+        return x if x.re < 0 else y
     return Sc(z3.If(zterm(a.re) <= zterm(b.re), zterm(a.re), zterm(b.re)))
 
 
@@ -293,6 +299,14 @@ class SymArray(_np.ndarray):
 
     def min(self, axis=None, **kw):
         return _reduce(self, sc_min, None, axis, self.kind)
+
+    def argsort(self, axis=-1, **kw):
+        from .npshim import shim
+        return shim.argsort(self)
+
+    def argmax(self, axis=None, **kw):
+        from .npshim import shim
+        return shim.argmax(self, axis)
 
     def trace(self, *a, **k):
         assert self.ndim == 2
